@@ -43,7 +43,7 @@ func cmdDump(args []string) {
 	pkg := fs.String("pkg", "", "package pattern")
 	fnk := fs.String("func", "", "function key")
 	fs.Parse(args)
-	e, err := loadEngine("/repo", strings.Split(*pkg, ","), "/verif/contracts", "/verif/extern")
+	e, err := loadEngine(repoDir, strings.Split(*pkg, ","), "/verif/contracts", "/verif/extern")
 	if err != nil {
 		fmt.Fprintln(os.Stderr, err)
 		os.Exit(2)
@@ -67,7 +67,7 @@ func cmdVerify(args []string) {
 	keep := fs.String("keep", "", "directory to keep failing queries in")
 	v := fs.Bool("v", false, "verbose")
 	fs.Parse(args)
-	e, err := loadEngine("/repo", strings.Split(*pkg, ","), "/verif/contracts", "/verif/extern")
+	e, err := loadEngine(repoDir, strings.Split(*pkg, ","), "/verif/contracts", "/verif/extern")
 	if err != nil {
 		fmt.Fprintln(os.Stderr, err)
 		os.Exit(2)
@@ -169,3 +169,12 @@ func init() {
 }
 
 var keepDir string
+
+// repoDir is /repo; the selftest points it at a scratch worktree (GOVC_REPO)
+// so that mutants are never applied to /repo itself.
+var repoDir = func() string {
+	if d := os.Getenv("GOVC_REPO"); d != "" {
+		return d
+	}
+	return "/repo"
+}()
